@@ -42,8 +42,10 @@ def run(d):
                 ln.startswith('VIOLATION property=' + p)
                 for ln in r.stdout.splitlines()))
         if meta.get('out_of_reach'):
-            # recorded as not decidable by this family: reported, not counted
-            return meta['name'], pid, hit or None, sorted(rules)
+            # recorded as not decidable by this family (or not told from a
+            # twin that is a known limit): reported, never counted -- even
+            # when a check stops on it
+            return meta['name'], pid, None, sorted(rules)
         return meta['name'], pid, hit, sorted(rules)
     finally:
         shutil.rmtree(tmp, ignore_errors=True)
